@@ -299,8 +299,8 @@ func (r *runtimeState) enabledLocked(t *thread) (bool, []int) {
 		}
 		return r.canRecvLocked(o.obj.(*chanState), t), nil
 	case OpSelect:
-		if r.foreignDataSelectLocked(o.sel) {
-			return true, []int{-3}
+		if ok, choices := r.foreignDataSelectLocked(o.sel); ok {
+			return true, choices
 		}
 		ready := r.readyCasesLocked(o.sel, t)
 		if len(ready) > 0 {
